@@ -457,6 +457,16 @@ def s1_zeroize():
                 yield 'zeroize/skip_fqs/' + tag, st('S', named(2, [['T'], ['u8']], [[sub(skip_meta('skip', ['Debug']), ('L', P('Zeroize'), [mpath('fqs')], None))], sk]), [dw(ts)])
                 yield 'zeroize/skip_fqs_enum/' + tag, en('E', [variant('A', 'Unnamed', unnamed(2, [['T'], ['u8']], [[sub(skip_meta('skip', ['Debug']), ('L', P('Zeroize'), [mpath('fqs')], None))], []])), variant('B')], [dw(ts)])
             yield 'zeroize/fqs_skip/' + tag, st('S', named(2, [['T'], ['u8']], [[sub(('L', P('Zeroize'), [mpath('fqs')], None), skip_meta('skip', ['Debug']))] if 'Debug' in ts else fq, sk]), [dw(ts)])
+    # `incomparable` concerns the comparison traits only: the fields of an incomparable variant / struct are still wiped
+    inc_ = [sub('incomparable')]
+    for ts in (['Zeroize', 'PartialEq'], ['Zeroize', 'ZeroizeOnDrop', 'PartialEq'], ['ZeroizeOnDrop', 'Zeroize', 'PartialOrd', 'PartialEq', 'Debug']):
+        tag = '+'.join(ts)
+        yield 'zeroize/incomparable/variant/' + tag, en('E', [variant('A', 'Unnamed', unnamed(2, [['T'], ['u8']])), variant('B', 'Named', named(2, [['T'], ['u8']]), inc_), variant('C', 'Unit', [], inc_)], [dw(ts)])
+        yield 'zeroize/incomparable/variant_first/' + tag, en('E', [variant('A', 'Unnamed', unnamed(1, [['T']]), inc_), variant('B', 'Named', named(1, [['u8']]))], [dw(ts)])
+        yield 'zeroize/incomparable/struct/' + tag, st('S', named(2, [['T'], ['u8']]), [dw(ts), dw(['incomparable'])])
+        yield 'zeroize/incomparable/tuple/' + tag, st('S', unnamed(2, [['T'], ['u8']]), [dw(['incomparable']), dw(ts)], 'Unnamed')
+        yield 'zeroize/incomparable/enum_item/' + tag, en('E', [variant('A', 'Unnamed', unnamed(2, [['T'], ['u8']])), variant('B')], [dw(ts), dw(['incomparable'])])
+        yield 'zeroize/incomparable/variant_skip/' + tag, en('E', [variant('A', 'Unnamed', unnamed(2, [['T'], ['u8']], [sk, []]), inc_), variant('B', 'Named', named(1, [['T']]))], [dw(ts)])
     # every order of a skipped, an fqs and a plain field
     for oi, perm in enumerate(itertools.permutations([sk, fq, [], [sub('skip')]], 3)):
         yield 'zeroize/perm/struct/%d' % oi, st('S', named(3, [['T'], ['u8'], ['u16']], list(perm)), [dw(['Zeroize', 'ZeroizeOnDrop', 'Debug'])])
@@ -588,6 +598,10 @@ def s3_invalid():
         yield 'inv/inc_no_partial/item/' + '+'.join(ts), S([dw(ts), dw(['incomparable'])]) if 'Default' not in ts else S([dw(['Clone']), dw(['incomparable'])])
     yield 'inv/inc_both/enum', E([dw(['PartialEq']), dw(['incomparable'])], [variant('A', 'Unnamed', unnamed(1, [['T']])), variant('B', 'Unit', [], [inc])])
     yield 'inv/inc_both/enum_first', E([dw(['incomparable']), dw(['PartialOrd'])], [variant('A', 'Unit', [], [inc]), variant('B')])
+    # the variant repeating the item's `incomparable` is also the `default` one (one attribute in either order, or two attributes)
+    for tag, a in (('default_first', [sub('default', 'incomparable')]), ('default_last', [sub('incomparable', 'default')]), ('split', [sub('default'), inc]), ('split_rev', [inc, sub('default')])):
+        yield 'inv/inc_both/default_variant/' + tag, E([dw(['Default', 'PartialEq']), dw(['incomparable'])], [variant('A', 'Unnamed', unnamed(1, [['T']]), a), variant('B')])
+        yield 'inv/inc_both/default_variant_last/' + tag, E([dw(['incomparable']), dw(['Default', 'PartialOrd', 'PartialEq'])], [variant('A', 'Unnamed', unnamed(1, [['T']])), variant('B', 'Unit', [], a)])
     yield 'inv/inc_dup/variant', E([dw(['PartialEq'])], [variant('A', 'Unnamed', unnamed(1, [['T']])), variant('B', 'Unit', [], [sub('incomparable', 'incomparable')])])
     yield 'inv/inc_dup/variant2', E([dw(['PartialEq'])], [variant('A', 'Unnamed', unnamed(1, [['T']])), variant('B', 'Unit', [], [inc, inc])])
     yield 'inv/inc_dup/item', S([dw(['PartialEq']), dw(['incomparable']), dw(['incomparable'])])
